@@ -529,6 +529,44 @@ func Reach(fn *ssa.Function, from ssa.Instruction, stop func(ssa.Instruction) bo
 	return false, nil
 }
 
+// ReachEdge is Reach started at the top of block b entered through its predecessor edge
+// b.Preds[in] (so that conditions testing a phi of b are specialised to the value that edge
+// carries): is an instruction satisfying goal reachable without passing one satisfying stop
+// and without entering b again?
+func ReachEdge(fn *ssa.Function, b *ssa.BasicBlock, in int, stop func(ssa.Instruction) bool, goal func(ssa.Instruction) bool) bool {
+	start := pstate{bstate{b, in}, ""}
+	seen := map[pstate]bool{start: true}
+	queue := []pstate{start}
+	for len(queue) > 0 {
+		s := queue[0]
+		queue = queue[1:]
+		stopped := false
+		for _, ins := range s.b.Instrs {
+			if goal(ins) {
+				return true
+			}
+			if stop != nil && stop(ins) {
+				stopped = true
+				break
+			}
+		}
+		if stopped {
+			continue
+		}
+		_, nxt := psuccs(s)
+		for _, ns := range nxt {
+			if ns.b == b {
+				continue // re-entering b gives its phis new values: another question
+			}
+			if !seen[ns] {
+				seen[ns] = true
+				queue = append(queue, ns)
+			}
+		}
+	}
+	return false
+}
+
 // IsReturn reports a normal return instruction.
 func IsReturn(in ssa.Instruction) bool {
 	_, ok := in.(*ssa.Return)
